@@ -413,3 +413,25 @@ Definition sync_case_ok (c : url * bytes * bytes * bytes) : bool :=
   | Ok (h, p) => bytes_eqb h obs_host && bytes_eqb p obs_path
   | _ => false
   end.
+
+(* ---------------------------------------------------------------- *)
+(* mautil.MultiaddrStringToNetAddr = manet.ToNetAddr of the parsed multiaddr.  ToNetAddr
+   dispatches on the LAST protocol: only tcp, udp, ip4, ip6 (and unix, not modelled) have a
+   converter (parseBasicNetMaddr), which then resolves DialArgs' address: so the result's
+   String() is DialArgs' address -- whatever stands between the thin waist and the last
+   component is ignored (/ip4/1.2.3.4/tcp/80/tcp/1 gives 1.2.3.4:80).  A dns* host would be
+   looked up by the resolver: not modelled (Err) and not exercised.  Family netaddr. *)
+Definition last_is_net (m : maddr) : bool :=
+  match last m (COther []) with
+  | CIp4 _ | CIp6 _ | CTcp _ | CUdp _ => true
+  | _ => false
+  end.
+Definition first_is_dns (m : maddr) : bool :=
+  match m with CDns _ :: _ | CDns4 _ :: _ | CDns6 _ :: _ => true | _ => false end.
+
+Definition ENotNetAddr := 16.
+Definition netaddr_of (m : maddr) : res bytes :=
+  if last_is_net m && negb (first_is_dns m) then '(h, _) <- dial_args m ;; Ok h else Err ENotNetAddr.
+
+Definition netaddr_case_ok (c : maddr * res bytes) : bool :=
+  res_match bytes_eqb (netaddr_of (fst c)) (snd c).
